@@ -11,6 +11,7 @@
   are in the tree; `lib_implements` is the only proof that has to grow.
 -/
 import Proofs.Lemmas.ModePadL
+import Proofs.Lemmas.ModeCtr
 import Model.ModeCiphers
 import Spec.ModeCiphers
 import Proofs.C02_Aes
@@ -287,5 +288,29 @@ theorem lib_implements {c : BlockCipher} {k : Spec.Mode.Cipher} (h : LibCipher c
 /-- the block length of a library cipher is 8 or 16 bytes: every padding scheme is admissible -/
 theorem lib_len {c : BlockCipher} {k : Spec.Mode.Cipher} (h : LibCipher c k) : c.len = 8 ∨ c.len = 16 := by
   cases h <;> simp [Ciphers.aes, Ciphers.des, Ciphers.tdea, Ciphers.serpent]
+
+/-- the admissible (padding, message) pairs for a library cipher: a padding scheme takes every message, `nopadding` the
+    non-empty block multiples (the bound l < 256 of PKCS#7 / X9.23 holds for every block length of the library) -/
+def LibPadDom (l : Nat) (s : Spec.ModePad.Scheme) (M : List Nat) : Prop :=
+  s = .none → M.length % l = 0 ∧ 0 < M.length
+
+theorem lib_padDom {c : BlockCipher} {k : Spec.Mode.Cipher} (h : LibCipher c k) (s : Spec.ModePad.Scheme) (M : List Nat)
+    (hd : LibPadDom c.len s M) : PadDom s c.len M := by
+  have hl := lib_len h
+  cases s with
+  | none => exact hd rfl
+  | pkcs7 => show c.len < 256; omega
+  | x923 => show c.len < 256; omega
+  | bit => trivial
+
+/-- the admissible counter arguments for a library cipher: None (zero nonce and count) or any one-block string -/
+def LibCtrDom (l : Nat) (iv : Option (List Nat)) : Prop := ∀ v, iv = some v → IsBlock l v
+
+theorem lib_ctrDom {c : BlockCipher} {k : Spec.Mode.Cipher} (h : LibCipher c k) (iv : Option (List Nat))
+    (hd : LibCtrDom c.len iv) : CtrDom c.len iv := by
+  have hl := lib_len h
+  cases iv with
+  | none => show c.len % 2 = 0; omega
+  | some v => exact hd v rfl
 
 end Proofs.Lemmas.ModeInst
